@@ -4,7 +4,7 @@ CONSTANTS
   Stacks <- IsoStacks
   Meters <- MetersNone
   UserKeys <- UK
-  Bounds <- Bnd
+  Bounds <- Bnd4
   Vals <- V2
   Inits <- InitsAll
   GasCap = 0
